@@ -1,6 +1,6 @@
 //! C11 — 'not available' codes, and only those, decode to an absent value.
 
-use crate::adapter::{Config, STD};
+use crate::adapter::{configs, Config, STD};
 use crate::engine::{Ctx, Input, Rec, Verdict};
 use crate::gen::payload::{payload_inputs, LenMode};
 use crate::props::payload::check_input;
@@ -81,7 +81,10 @@ pub fn run(ctx: &mut Ctx) {
                         if ctx.sub_failed("sentinel-neighbourhood") {
                             return;
                         }
-                        ctx.sweep_case("sentinel-neighbourhood", &STD, &Input::Payload { bytes: b }, check);
+                        let input = Input::Payload { bytes: b };
+                        for cfg in configs() {
+                            ctx.sweep_case("sentinel-neighbourhood", cfg, &input, check);
+                        }
                     }
                 }
             }
